@@ -23,11 +23,11 @@ Local Open Scope Z_scope.
 (* the whole of Expand *)
 Theorem C13_expand_correct :
   forall setden m,
-    expand_checks m = true -> 0 <= nterms m ->
+    expand_checks m = true ->
     forall X, nterms m <= X < nterms m + Z.of_nat (length (m_nonterms m)) -> forall w,
       lfp (nterms m) setden (map nt_value (m_nonterms m)) X w <->
       lfp (nterms m) setden (map snd (res_nonterms (expand m))) (perm_sym (nterms m) (x_perm (snd (phase1 m))) X) w.
-Proof. exact expand_correct_checked. Qed.
+Proof. intros setden m Hc. apply expand_correct_checked; [exact Hc | unfold nterms; lia]. Qed.
 
 (* the whole of Expand, up to the order of the nonterminals *)
 Theorem C13_expand_preserves :
@@ -137,8 +137,8 @@ Example C13_example_shape :
   ext_derives 3 (fun _ => [0; 1]) (map nt_value (m_nonterms ex_model)) 3 [0; 1] = false.
 Proof. vm_compute. repeat split; reflexivity. Qed.
 
-Example C13_example_checks : expand_checks ex_model = true /\ 0 <= nterms ex_model.
-Proof. split; [vm_compute; reflexivity | vm_compute; discriminate]. Qed.
+Example C13_example_checks : expand_checks ex_model = true.
+Proof. vm_compute. reflexivity. Qed.
 
 Example C13_example_hypotheses :
   x_fatal (snd (phase1 ex_model)) = false /\
